@@ -165,6 +165,25 @@ fn ctl_programs() -> usize {
         ("o = map_values([1, 2]) -> |v| { return 7 }\no", Ok("[7, 7]")),
         ("o = for_each([1, 2]) -> |_i, v| { abort }\no", Err("ABORT")),
         ("abort \"stop\"\n.", Err("ABORT:stop")),
+        ("_, err = to_int({ abort })\n.after = true\n.", Err("ABORT")),
+        ("_, err = to_int({ abort \"why\" })\n.after = true\n.", Err("ABORT:why")),
+        ("ok, _ = to_int({ abort })\n.after = true\n.", Err("ABORT")),
+        ("_, err = to_int({ return 3 })\n.after = true\n.", Ok("3")),
+        ("x = [{ return 1 }, 2]\n.", Ok("1")),
+        ("x = upcase(downcase({ return \"z\" }))\n.", Ok("\"z\"")),
+        ("x = (to_int({ return 6 }) ?? 1) + 1\n.", Ok("6")),
+        ("x = if ({ return 2 }) { 1 }\n.", Ok("2")),
+        ("o = map_keys({\"a\": 1, \"b\": 2}) -> |k| { if k == \"a\" { return \"first\" }; upcase(k) }\n.after = true\n[o, .after]", Ok("[{ \"B\": 2, \"first\": 1 }, true]")),
+        ("o = map_values({\"a\": 1, \"b\": 2}) -> |v| { if v == 1 { return 10 }; v }\n.after = true\n[o, .after]", Ok("[{ \"a\": 10, \"b\": 2 }, true]")),
+        ("o = filter({\"a\": 1, \"b\": 2}) -> |_k, v| { if v == 1 { return false }; true }\n.after = true\n[o, .after]", Ok("[{ \"b\": 2 }, true]")),
+        ("n = 0\nfor_each({\"a\": 1, \"b\": 2}) -> |_k, v| { if v == 1 { return null }; n = n + v }\nn", Ok("2")),
+        ("n = 0\nfor_each([1, 2]) -> |_i, v| { if v == 1 { return null }; n = n + v }\nn", Ok("2")),
+        ("o = replace_with(\"abc\", r'b') -> |m| { return \"X\" }\n.after = true\n[o, .after]", Ok("[\"aXc\", true]")),
+        ("o = map_keys({\"a\": 1}) -> |k| { abort }\n.after = true\n.", Err("ABORT")),
+        ("o = replace_with(\"abc\", r'b') -> |m| { abort }\n.", Err("ABORT")),
+        ("x = (null || { return 4 })\n.", Ok("4")),
+        ("x = (true && { abort })\n.", Err("ABORT")),
+        ("x = { .a = 1; abort }\n.", Err("ABORT")),
     ])
 }
 
